@@ -1,19 +1,53 @@
 """Shared pieces of the scheme-level checks (C02, C03, C04): independent molecule normalisation, the driver input
 for `PGA.Scheme.getDescriptors`, the declarative interpretation of a scheme (spec oracle), and the canonical
 observation of the implementation."""
-import collections, os, warnings
+import collections, json, os, warnings
 from fractions import Fraction
 from rdkit import Chem
 from . import common
 
 
+# ----------------------------------------------------------------------------- live schemes and their pattern texts
+_TEXT = {}          # id(MolQuery) -> (MolQuery, RING text it was read from)
+_LIBS = None
+
+
+def _install_text_recorder():
+    """`GroupAdditivityScheme.Load` hands every `connectivity` text to `Read` and keeps only the query object.  The
+    end-to-end model needs the text, so the name `Read` *as the Scheme module sees it* is wrapped: same call, same result,
+    and the (query object, text) pair is remembered.  Nothing else of the load is touched."""
+    import pgradd.GroupAdd.Scheme as M
+    if getattr(M.Read, '_verif_recorder', False):
+        return
+    real = M.Read
+
+    def Read(text, *a, **kw):
+        q = real(text, *a, **kw)
+        _TEXT[id(q)] = (q, text)
+        return q
+    Read._verif_recorder = True
+    M.Read = Read
+
+
 def load_schemes():
-    """(library name, GroupLibrary) for every bundled library (live objects of $REPO)"""
-    warnings.filterwarnings('ignore')
-    import pgradd.ThermoChem  # noqa
-    from pgradd.GroupAdd.Library import GroupLibrary
-    from .gen import libs
-    return [(n, libs.load(n)) for n in libs.lib_names()]
+    """(library name, GroupLibrary) for every bundled library (live objects of $REPO), loaded with the text recorder on"""
+    global _LIBS
+    if _LIBS is None:
+        warnings.filterwarnings('ignore')
+        import pgradd.ThermoChem  # noqa
+        from pgradd.GroupAdd.Library import GroupLibrary
+        from .gen import libs
+        _install_text_recorder()
+        _LIBS = [(n, GroupLibrary.Load(n)) for n in libs.lib_names()]
+    return _LIBS
+
+
+def text_of(query):
+    """the RING text a live query object of a loaded scheme was read from"""
+    ent = _TEXT.get(id(query))
+    if ent is None or ent[0] is not query:
+        raise common.MachineryError('no recorded RING text for a scheme query object (scheme not loaded through lib_scheme.load_schemes?)')
+    return ent[1]
 
 
 # ----------------------------------------------------------------------------- independent normalisation
@@ -48,9 +82,11 @@ def benson_aromatize(mol):
             b.SetBondType(Chem.BondType.AROMATIC)
 
 
-def prepare(x):
-    """The molecule the properties talk about: explicit-H Kekulé graph with weak bonds as ZERO and Benson C6 rings
-    aromatic.  Computed with RDKit only.  Returns None when RDKit cannot parse the SMILES."""
+def prepare(x, aromatize=True):
+    """The molecule the properties talk about: explicit-H Kekulé graph with weak bonds as ZERO and (aromatize=True) Benson
+    C6 rings aromatic.  Computed with RDKit only.  Returns None when RDKit cannot parse the SMILES.
+    aromatize=False: the *raw* graph the Lean model `aromatizeBenson`/`decompose` starts from — the Python perception below
+    is not run, only RDKit's ring perception the code calls (`GetSymmSSSR`), so that the ring list is the one the code visits."""
     if isinstance(x, str):
         mol = Chem.MolFromSmiles(x)
         if mol is None:
@@ -63,8 +99,39 @@ def prepare(x):
     for b in mol.GetBonds():
         if str(b.GetBondType()) == 'UNSPECIFIED':
             b.SetBondType(Chem.BondType.ZERO)
-    benson_aromatize(mol)
+    if aromatize:
+        benson_aromatize(mol)
+    else:
+        Chem.GetSymmSSSR(mol)
     return mol
+
+
+def raw_graph(x):
+    """JSON graph (`lib_mol.mol_to_json`) of the normalised, NOT yet Benson-aromatised molecule, with the A-graph facts the
+    end-to-end model relies on re-checked: stability and consistency of the ring information (`lib_mol.check_graph`), the
+    ring list being exactly what `Chem.GetSymmSSSR` returns (the list `_aromatization_Benson` iterates), and the neighbour
+    order of every atom being its bond order.  None when RDKit cannot parse the input or the graph has a feature the model
+    does not represent."""
+    from . import lib_mol
+    mol = prepare(x, aromatize=False)
+    if mol is None:
+        return None
+    try:
+        g = lib_mol.mol_to_json(mol)
+    except lib_mol.UnsupportedGraph:
+        return None
+    bad = lib_mol.check_graph(mol, g)
+    if [list(r) for r in Chem.GetSymmSSSR(mol)] != g['rings']:
+        bad.append('AtomRings() differs from GetSymmSSSR()')
+    if lib_mol.mol_to_json(mol) != g:
+        bad.append('GetSymmSSSR() is not idempotent on the ring information')
+    for a in mol.GetAtoms():
+        i = a.GetIdx()
+        if [n.GetIdx() for n in a.GetNeighbors()] != [b.GetOtherAtomIdx(i) for b in a.GetBonds()]:
+            bad.append('GetNeighbors order != GetBonds order at %d' % i)
+    if bad:
+        raise common.MachineryError('A-graph check failed for %r: %s' % (x if isinstance(x, str) else Chem.MolToSmiles(x), bad[:3]))
+    return g
 
 
 def graph_key(x):
@@ -132,6 +199,180 @@ def scheme_input(scheme, mol, matcher=matches_of):
     return {'op': 'c02.descriptors', 'n': n, 'nbrs': nbrs, 'centres': centres, 'descs': descs, 'remaps': remaps}
 
 
+_SJ = {}
+
+
+def remaps_json(scheme):
+    return [{'key': str(k), 'targets': [{'coef': common.jrat(common.frac_of_float(t[0])), 'name': str(t[1])} for t in v]}
+            for k, v in scheme.remaps.items()]
+
+
+def scheme_json(scheme):
+    """The scheme as the end-to-end model takes it: entries (names, order) from the live scheme object, each `connectivity`
+    as the parse tree the implementation's own parser makes of the recorded text, the remap table."""
+    from . import lib_ast
+    key = id(scheme)
+    ent = _SJ.get(key)
+    if ent is not None and ent[0] is scheme:
+        return ent[1]
+    trees = {}
+
+    def tree(q):
+        t = text_of(q)
+        if t not in trees:
+            trees[t] = lib_ast.parse_to_json(t)
+        return trees[t]
+    j = {'centres': [{'center': str(p['center_name']), 'periph': str(p['periph_name']), 'ast': tree(p['connectivity'])}
+                     for p in scheme.patterns],
+         'descs': [{'name': str(d['name']), 'ast': tree(d['connectivity'])} for d in scheme.other_descriptors],
+         'remaps': remaps_json(scheme)}
+    _SJ[key] = (scheme, j)
+    return j
+
+
+def full_request(scheme, graphs):
+    """one `c02.full_batch` request: the scheme once, the raw graphs of a batch of molecules"""
+    return {'op': 'c02.full_batch', 'scheme': scheme_json(scheme), 'mols': graphs}
+
+
+# ----------------------------------------------------------------------------- patterns as sets of embeddings (independent of the implementation's reader and matcher)
+def _kids(t, name=None):
+    if not isinstance(t, dict) or (name is not None and t['n'] != name):
+        raise common.MachineryError('unexpected parse-tree node %r (wanted %s)' % (t if not isinstance(t, dict) else t['n'], name))
+    return t['c']
+
+
+def _leaf(t, name):
+    c = _kids(t, name)
+    if len(c) != 1 or not isinstance(c[0], str):
+        raise common.MachineryError('unexpected leaf under %s' % name)
+    return c[0]
+
+
+def _atomtype(t):
+    out = {'prefix': None, 'suffix': None}
+    for c in _kids(t, 'AtomType'):
+        if c['n'] == 'AtomPrefix':
+            out['prefix'] = _leaf(c, 'AtomPrefix')
+        elif c['n'] == 'Symbols':
+            out['sym'] = _leaf(c, 'Symbols')
+        elif c['n'] == 'AtomSuffix':
+            out['suffix'] = _leaf(c, 'AtomSuffix')
+        else:
+            raise common.MachineryError('AtomType child %s' % c['n'])
+    return out
+
+
+def _unchain(cs, chain):
+    out = []
+    while True:
+        out.append(cs[0])
+        if len(cs) == 1:
+            return out
+        cs = _kids(cs[1], chain)
+
+
+def _cn(t):
+    c = _kids(t, 'ConstraintNumber')
+    return (c[0], int(c[1])) if len(c) == 2 else (None, int(c[0]))
+
+
+def _cons(t):
+    (c,) = _kids(t, 'AtomConstraints')
+    kids = list(c['c'])
+    neg = False
+    if kids and isinstance(kids[0], dict) and kids[0]['n'] == 'Boolean':
+        if _leaf(kids[0], 'Boolean') != '!':
+            raise common.MachineryError('Boolean other than !')
+        neg = True
+        kids = kids[1:]
+    if c['n'] == 'AtomConstraintConnectivity':
+        cn = None
+        if kids[0]['n'] == 'ConstraintNumber':
+            cn = _cn(kids[0])
+            kids = kids[1:]
+        t_ = _atomtype(kids[0])
+        bw = _leaf(kids[1], 'BondType') if len(kids) > 1 else None
+        return ('conn', neg, cn, t_, bw)
+    kind = {'AtomConstraintRing': 'ringsize', 'AtomConstraintRadical': 'radical', 'AtomConstraintNRing': 'nring'}[c['n']]
+    return (kind, neg, _cn(kids[0]))
+
+
+def _chain(rest):
+    if not rest:
+        return []
+    return [_cons(x) for x in _unchain(_kids(rest[0], 'AtomConstraintChain'), 'AtomConstraintChain')]
+
+
+def frag_of_ast(t):
+    """parse tree of a fragment -> the structured fragment `lib_embeds` works on (`lib_ringgen_c08`'s form).  Only decodes the
+    tree's shape (which child is which); what the words mean is `lib_embeds`' business."""
+    if t['n'] == 'RINGInput':
+        (t,) = t['c']
+    pre, name, mq = _kids(t, 'Fragment')
+    frag = {'molprefix': list(_kids(pre, 'Prefix')), 'name': name['c'][0], 'items': []}
+    mq = _kids(mq, 'MolQuery')
+    a0 = _kids(mq[0], 'Atom')
+    at = _atomtype(a0[0])
+    at.update(label=_leaf(a0[1], 'AtomLabel'), chain=_chain(a0[2:]), bond=None)
+    frag['items'].append(('atom', at))
+    for it in (_unchain(_kids(mq[1], 'AtomChain'), 'AtomChain') if len(mq) > 1 else []):
+        c = it['c']
+        if it['n'] == 'BondedAtom':
+            at = _atomtype(c[0])
+            at.update(label=_leaf(c[1], 'AtomLabel'), bond=(_leaf(c[2], 'BondType'), _leaf(c[3], 'AtomLabel')), chain=_chain(c[4:]))
+            frag['items'].append(('atom', at))
+        elif it['n'] == 'RingBond':
+            frag['items'].append(('ringbond', _leaf(c[0], 'AtomLabel'), _leaf(c[1], 'BondType'), _leaf(c[2], 'AtomLabel')))
+        elif it['n'] == 'StereoDoubleBond':
+            l1 = _leaf(c[0], 'AtomLabel')
+            rest = c[1:]
+            neg = False
+            if rest[0]['n'] == 'Boolean':
+                neg = True
+                rest = rest[1:]
+            frag['items'].append(('stereo', l1, neg, _leaf(rest[0], 'DoubleBondStereoType'), _leaf(rest[1], 'AtomLabel'),
+                                  _leaf(rest[2], 'AtomLabel'), _leaf(rest[3], 'AtomLabel')))
+        else:
+            raise common.MachineryError('AtomChain item %s' % it['n'])
+    return frag
+
+
+_FRAG = {}
+
+
+def embed_matcher(graph):
+    """a `matcher` for `scheme_input`: the matches of a pattern are the embeddings its text denotes in `graph`
+    (`lib_embeds`, written from the property text of C08) — neither the implementation's reader, nor its matcher, nor RDKit's."""
+    from . import lib_ast, lib_embeds
+    G = lib_embeds.Graph(graph)
+
+    def matcher(query, mol):
+        text = text_of(query)
+        if text not in _FRAG:
+            _FRAG[text] = frag_of_ast(lib_ast.parse_to_json(text))
+        r = lib_embeds.embeddings(_FRAG[text], graph, G=G)
+        if isinstance(r, tuple) and r and r[0] == 'error':
+            raise common.MachineryError('a shipped pattern is unreadable for the oracle: %r' % text)
+        return [list(f) for f in r]
+    return matcher
+
+
+def declared_full(scheme, x):
+    """The declared decomposition of input `x` with every pattern read as the set of its embeddings, on the graph normalised
+    and Benson-aromatised by the harness: independent of the implementation's normalisation, perception, reader and matcher
+    (it shares the implementation's *parser*, which is C09's subject).  None when RDKit cannot parse the input."""
+    from . import lib_mol
+    mol = prepare(x)
+    if mol is None:
+        return None
+    try:
+        g = lib_mol.mol_to_json(mol)
+    except lib_mol.UnsupportedGraph:
+        return None
+    return declared(scheme_input(scheme, mol, embed_matcher(g)))
+
+
 # ----------------------------------------------------------------------------- the declarative interpretation (spec oracle)
 def canon_name(csg, psgs):
     c = collections.Counter(psgs)
@@ -193,3 +434,210 @@ def add_counts(a, b):
         for k, v in d.items():
             out[k] += v
     return dict(out)
+
+
+# ----------------------------------------------------------------------------- second correspondence: end to end from the raw graph
+def hook_graph(lib):
+    """aromatic flags and bond kinds of the molecule the implementation annotated in its last successful decomposition
+    (guarded hook): what `_aromatization_Benson` made of the input, as the implementation itself saw it"""
+    from . import lib_mol
+    m = getattr(lib.scheme, '_verif_last_mol', None)
+    if m is None:
+        return None
+    try:
+        g = lib_mol.mol_to_json(m)
+    except lib_mol.UnsupportedGraph:
+        return None
+    return {'arom': [a[3] for a in g['atoms']], 'kinds': [b[2] for b in g['bonds']]}
+
+
+class FullTie(object):
+    """`GetDescriptors(x)` vs the end-to-end Lean model `PGA.Decompose.decompose` (driver op `c02.full_batch`): the model gets
+    the raw graph (normalised by the harness with RDKit, NOT aromatised), the parse trees of the scheme's pattern texts and
+    the remap table; it aromatises, reads, matches and decomposes itself.  Molecules are batched per scheme object (the
+    scheme travels once per request).  Compared: descriptors or failure, per-atom centre/peripheral/group names, and the
+    aromatised graph (flags, bond kinds) against the molecule the implementation annotated."""
+    CAP = 10000
+
+    def __init__(self, ctx, max_atoms=None, max_cases=None):
+        self.ctx = ctx
+        self.by = collections.OrderedDict()
+        self.max_atoms = max_atoms
+        self.max_cases = max_cases
+        self.n = 0
+        self.flags = []
+
+    def add(self, lib, x, impl, where, atoms=None, hook=None):
+        ctx = self.ctx
+        if self.max_cases is not None and self.n >= self.max_cases:
+            ctx.count('full_not_run_budget')
+            return
+        g = raw_graph(x)
+        if g is None:
+            ctx.count('full_no_graph')
+            return
+        if self.max_atoms is not None and len(g['atoms']) > self.max_atoms:
+            ctx.count('full_skipped_over_%d_atoms' % self.max_atoms)
+            return
+        self.n += 1
+        self.by.setdefault(id(lib.scheme), [lib.scheme, []])[1].append((g, impl, where, atoms, hook))
+
+    def run(self):
+        ctx = self.ctx
+        groups = list(self.by.values())
+        self.by = collections.OrderedDict()
+        self.n = 0
+        if not groups:
+            return
+        replies = ctx.model([full_request(s, [c[0] for c in cases]) for s, cases in groups])
+        if replies is None:
+            return
+        for (s, cases), rep in zip(groups, replies):
+            if 'loaderr' in rep:
+                ctx.disagree('corr:c02.full', cases[0][2], 'scheme loaded', rep)
+                continue
+            # hypotheses of the composition theorems, observed on every scheme sent: queries well-formed, no `*` suffix,
+            # no molecule-level prefix (the last one is what C04_decompose_union needs; a table observation for the shipped schemes)
+            for flag in ('schemewf', 'nostar', 'nomolprefix', 'connected'):
+                ctx.count('scheme_%s_%s' % (flag, 'yes' if rep.get(flag) else 'NO'))
+            if not rep.get('schemewf') or not rep.get('connected'):
+                raise common.MachineryError('the model reader returned an ill-formed or disconnected query for a scheme pattern '
+                                            '(contradicts C02_load_wf / C04_load_connected)')
+            self.flags.append({k: bool(rep.get(k)) for k in ('nostar', 'nomolprefix')})
+            table = {str(k): str(v[0][1]) for k, v in s.remaps.items() if v}
+            for (g, impl, where, atoms, hook), r in zip(cases, rep['res']):
+                ctx.count('corr_c02.full')
+                ctx.count('full_atoms_%03d' % (10 * (len(g['atoms']) // 10)))
+                if not (r['wf'] and r['bonded']):
+                    raise common.MachineryError('A-graph: the model finds the extracted graph ill-formed (wf=%s, rings bonded=%s) for %r'
+                                                % (r['wf'], r['bonded'], where))
+                if r['maxraw'] >= self.CAP:
+                    ctx.count('full_cap_reached')      # which 10 000 candidates RDKit keeps is not modelled (F30)
+                    continue
+                ctx.count('full_cap_inactive')
+                self.maxraw = max(getattr(self, 'maxraw', 0), r['maxraw'])
+                if 'err' in r or 'err' in impl:
+                    if r.get('err') != impl.get('err'):
+                        ctx.disagree('corr:c02.full', where, impl, {k: r[k] for k in ('ok', 'err') if k in r})
+                    continue
+                model = {k: common.unjrat(v) for k, v in r['ok']}
+                if not same_counts(impl['ok'], model):
+                    ctx.disagree('corr:c02.full', where, impl['ok'], {k: float(v) for k, v in model.items()})
+                    continue
+                if atoms is not None and r['atoms'] is not None and len(atoms) == len(r['atoms']):
+                    ma = [[c, p, table.get(gn, gn)] for c, p, gn in r['atoms']]
+                    if ma != atoms:
+                        bad = [i for i in range(len(ma)) if ma[i] != atoms[i]][:3]
+                        ctx.disagree('corr:c02.full.atoms', dict(where, atoms=bad), [atoms[i] for i in bad], [ma[i] for i in bad])
+                    ctx.count('corr_c02.full.atoms')
+                if hook is not None and len(hook['arom']) == len(r['arom']):
+                    if hook['arom'] != r['arom'] or hook['kinds'] != r['kinds']:
+                        ctx.disagree('corr:c02.full.aromatize', where, hook, {'arom': r['arom'], 'kinds': r['kinds']})
+                    ctx.count('corr_c02.full.aromatize')
+                    if any(r['arom']):
+                        ctx.count('corr_c02.full.aromatize_with_aromatic_ring')
+
+
+# ----------------------------------------------------------------------------- A-graph for mixtures (C04)
+def mixture_is_union(parts):
+    """Is RDKit's raw graph of the mixture 'A.B[.C…]' the disjoint union of the parts' raw graphs (`Mol.union`, atoms of each
+    part after those of the previous ones) renumbered by an explicit permutation π — the hypothesis `MolIso π (A ⊔ B) M` of
+    `C04_decompose_mixture`?  π is fixed by how RDKit builds the molecule (heavy atoms of all parts first, in order, then the
+    hydrogens `AddHs` appends, part by part).  Checked: atoms at π(i) identical; bonds identical as a multiset with the same
+    begin/end atoms (any order); rings renamed **in the same order**.  Returns (ok, detail); None when a graph is unavailable."""
+    gs = [raw_graph(p) for p in parts]
+    gm = raw_graph('.'.join(parts))
+    if gm is None or any(g is None for g in gs):
+        return None
+    heavy = []
+    for p in parts:
+        m = Chem.MolFromSmiles(p)
+        heavy.append(m.GetNumAtoms())
+    ns = [len(g['atoms']) for g in gs]
+    tot_heavy = sum(heavy)
+    pi, off = [], 0
+    h_before = 0      # hydrogens of earlier parts
+    hv_before = 0     # heavy atoms of earlier parts
+    for g, n, hv in zip(gs, ns, heavy):
+        for k in range(n):
+            pi.append(hv_before + k if k < hv else tot_heavy + h_before + (k - hv))
+        hv_before += hv
+        h_before += n - hv
+    if sorted(pi) != list(range(len(gm['atoms']))):
+        return False, 'pi is not a permutation of the mixture atoms'
+    atoms = [None] * len(pi)
+    bonds, rings, off = [], [], 0
+    for g, n in zip(gs, ns):
+        for k, a in enumerate(g['atoms']):
+            atoms[pi[off + k]] = a
+        bonds += [[pi[b[0] + off], pi[b[1] + off], b[2], b[3], b[4], [pi[s + off] for s in b[5]]] for b in g['bonds']]
+        rings += [[pi[x + off] for x in r] for r in g['rings']]
+        off += n
+    if atoms != gm['atoms']:
+        return False, 'atoms differ'
+    if rings != gm['rings']:
+        return False, 'rings differ (as an ordered list)'
+    key = json.dumps
+    if sorted(map(key, bonds)) != sorted(map(key, gm['bonds'])):
+        return False, 'bonds differ (as a multiset with orientation)'
+    return True, 'same bond order' if bonds == gm['bonds'] else 'bond order differs'
+
+
+# ----------------------------------------------------------------------------- A-graph for renumbered molecules (C03)
+def renumbering_relation(rng, smi):
+    """How RDKit's raw graph of a molecule relates to the raw graph of the same molecule object with its heavy atoms renumbered
+    at random (`Chem.RenumberAtoms`): with π the renumbering extended to the hydrogens (k-th hydrogen of a heavy atom ↦ k-th
+    hydrogen of its image), are the atoms at π(i) identical, the bonds identical as a multiset (begin/end and stereo reference
+    atoms included), the rings identical as an ordered list / up to rotation-reflection of each ring / as a set?  This is where
+    `MolIso` (C03_decompose_relabel), `RingEquiv` (C03_aromatize_rotation_reflection) and the ring-order theorem literally
+    apply.  Returns a short class name, or None."""
+    m = Chem.MolFromSmiles(smi)
+    if m is None or m.GetNumAtoms() < 2:
+        return None
+    n = m.GetNumAtoms()
+    order = list(range(n))
+    rng.shuffle(order)
+    m2 = Chem.RenumberAtoms(m, order)
+    g1, g2 = raw_graph(m), raw_graph(m2)
+    if g1 is None or g2 is None or any(a[0] == 1 for a in g1['atoms'][:n]):
+        return None
+    pos = {old: new for new, old in enumerate(order)}
+
+    def hyd(g):
+        d = collections.defaultdict(list)
+        for b in g['bonds']:
+            for x, y in ((b[0], b[1]), (b[1], b[0])):
+                if x < n and y >= n:
+                    d[x].append(y)
+        return d
+    h1, h2 = hyd(g1), hyd(g2)
+    pi = {}
+    for a in range(n):
+        pi[a] = pos[a]
+        if len(h1[a]) != len(h2[pos[a]]):
+            return 'other'
+        for u, v in zip(h1[a], h2[pos[a]]):
+            pi[u] = v
+    N = len(g1['atoms'])
+    if len(pi) != N or len(g2['atoms']) != N:
+        return 'other'
+    atoms = [None] * N
+    for k, a in enumerate(g1['atoms']):
+        atoms[pi[k]] = a
+    if atoms != g2['atoms']:
+        return 'other'
+    bonds = [[pi[b[0]], pi[b[1]], b[2], b[3], b[4], [pi[s] for s in b[5]]] for b in g1['bonds']]
+    if sorted(map(json.dumps, bonds)) != sorted(map(json.dumps, g2['bonds'])):
+        return 'bonds_differ(stereo_reference_atoms_or_orientation)'
+    rings = [[pi[x] for x in r] for r in g1['rings']]
+    if rings == g2['rings']:
+        return 'MolIso'
+
+    def norm(r):
+        rots = [tuple(r[i:] + r[:i]) for i in range(len(r))] + [tuple(r[::-1][i:] + r[::-1][:i]) for i in range(len(r))]
+        return min(rots)
+    if [norm(r) for r in rings] == [norm(r) for r in g2['rings']]:
+        return 'MolIso_up_to_ring_rotation'
+    if sorted(norm(r) for r in rings) == sorted(norm(r) for r in g2['rings']):
+        return 'MolIso_up_to_ring_rotation_and_order'
+    return 'other'
